@@ -13,9 +13,11 @@ import (
 	"math/rand"
 	"os"
 	"regexp"
+	"runtime"
 	"runtime/debug"
 	"sort"
 	"strings"
+	"sync"
 	"testing"
 	"time"
 
@@ -195,6 +197,11 @@ type driverInput struct {
 	DeadlineMs int          `json:"deadline_ms"`
 	Replay     []replaySpec `json:"replay,omitempty"`
 	MaxPerCase int          `json:"max_per_case"` // cap on concrete inputs per case (0 = none)
+	// Skip lists call ids ("<case id>#<index>") that are not executed: inputs that killed an earlier driver process and
+	// are re-run alone by the check
+	Skip []string `json:"skip,omitempty"`
+	// MemLimitMB: the driver gives up (exit code 97) when the Go runtime holds more memory than this (0 = 6144)
+	MemLimitMB int `json:"mem_limit_mb,omitempty"`
 }
 
 type finding struct {
@@ -231,11 +238,91 @@ type caseResult struct {
 // hung counts calls that missed their deadline: their goroutines are abandoned and keep running (and may keep allocating)
 var hung int
 
+// ---- surviving what is tested: the call in flight is always on disk, a memory watchdog ends the process in an orderly way
+
+var curPath string
+
+type inFlight struct {
+	CallID string `json:"call_id"`
+	EP     string `json:"ep"`
+	Op     string `json:"op"`
+	Pos    string `json:"pos"`
+	Desc   string `json:"desc"`
+	Input  string `json:"input_b64"`
+	Ctx    json.RawMessage `json:"ctx,omitempty"`
+	Reason string `json:"reason,omitempty"` // set by the watchdog
+	Site   string `json:"site,omitempty"`
+	Stack  string `json:"stack,omitempty"`
+}
+
+var (
+	curMu  sync.Mutex
+	curRec *inFlight
+)
+
+func setInFlight(rec *inFlight) {
+	curMu.Lock()
+	curRec = rec
+	curMu.Unlock()
+	if curPath == "" {
+		return
+	}
+	if rec == nil {
+		_ = os.Remove(curPath)
+		return
+	}
+	bs, _ := json.Marshal(rec)
+	_ = os.WriteFile(curPath, bs, 0o644)
+}
+
+// siteOfGuarded finds, in a dump of all goroutines, the goroutine that runs the guarded call and returns its top repository frame.
+func siteOfGuarded(dump string) (string, string) {
+	for _, block := range strings.Split(dump, "\n\n") {
+		if strings.Contains(block, "drivers/robust.guarded.func1") {
+			return panicSite(block), trunc(block, 5000)
+		}
+	}
+	return "unknown", ""
+}
+
+const exitMemory = 97
+
+func memoryWatchdog(limitMB int) {
+	if limitMB <= 0 {
+		limitMB = 6144
+	}
+	go func() {
+		var ms runtime.MemStats
+		for {
+			time.Sleep(50 * time.Millisecond)
+			runtime.ReadMemStats(&ms)
+			if ms.HeapSys+ms.StackSys < uint64(limitMB)<<20 {
+				continue
+			}
+			buf := make([]byte, 4<<20)
+			dump := string(buf[:runtime.Stack(buf, true)])
+			curMu.Lock()
+			rec := curRec
+			curMu.Unlock()
+			if rec != nil && curPath != "" {
+				r2 := *rec
+				r2.Reason = fmt.Sprintf("memory: the Go runtime holds %d MB (limit %d MB)", (ms.HeapSys+ms.StackSys)>>20, limitMB)
+				r2.Site, r2.Stack = siteOfGuarded(dump)
+				bs, _ := json.Marshal(r2)
+				_ = os.WriteFile(curPath, bs, 0o644)
+			}
+			fmt.Fprintf(os.Stdout, "\nVERIF-MEMORY-WATCHDOG: giving up, the Go runtime holds %d MB\n", (ms.HeapSys+ms.StackSys)>>20)
+			os.Exit(exitMemory)
+		}
+	}()
+}
+
 type world struct {
 	t        *testing.T
 	eps      map[string]*entryPoint
 	level    int
 	deadline time.Duration
+	skip     map[string]bool
 }
 
 func (w *world) add(e *entryPoint) { w.eps[e.name] = e }
@@ -391,6 +478,9 @@ func (w *world) runCase(c caseSpec, in driverInput) caseResult {
 			res.Distinct++
 		}
 		callID := fmt.Sprintf("%s#%d", c.ID, k)
+		if w.skip[callID] {
+			continue
+		}
 		if e.reset != nil {
 			e.reset()
 		}
@@ -401,7 +491,13 @@ func (w *world) runCase(c caseSpec, in driverInput) caseResult {
 		var ctx json.RawMessage
 		res.Trace = append(res.Trace, map[string]any{"ev": "call", "id": callID, "ep": c.EP, "op": c.Op, "pos": c.Pos, "pre": pre})
 		input := ci.input
+		var ctxNow json.RawMessage
+		if e.saveCtx != nil {
+			ctxNow = e.saveCtx() // a killed process cannot save it afterwards
+		}
+		setInFlight(&inFlight{CallID: callID, EP: c.EP, Op: c.Op, Pos: c.Pos, Desc: ci.desc, Input: b64(input), Ctx: ctxNow})
 		o := guarded(w.deadline, func() (bool, string) { return e.call(input) })
+		setInFlight(nil)
 		res.Calls++
 		if o.Slow {
 			res.Slow++
@@ -477,7 +573,13 @@ func TestDriver(t *testing.T) {
 	if in.DeadlineMs == 0 {
 		in.DeadlineMs = 5000
 	}
-	w := &world{t: t, eps: map[string]*entryPoint{}, level: in.Level, deadline: time.Duration(in.DeadlineMs) * time.Millisecond}
+	w := &world{t: t, eps: map[string]*entryPoint{}, level: in.Level, deadline: time.Duration(in.DeadlineMs) * time.Millisecond, skip: map[string]bool{}}
+	for _, id := range in.Skip {
+		w.skip[id] = true
+	}
+	curPath = outPath + ".cur"
+	_ = os.Remove(curPath)
+	memoryWatchdog(in.MemLimitMB)
 	needed := map[string]bool{}
 	for _, c := range in.Cases {
 		needed[c.EP] = true
@@ -518,7 +620,9 @@ func TestDriver(t *testing.T) {
 		if e.digest != nil {
 			pre = e.digest()
 		}
+		setInFlight(&inFlight{CallID: res.ID, EP: r.EP, Op: "replay", Pos: "-", Desc: r.Desc, Input: r.Input, Ctx: r.Ctx})
 		o := guarded(w.deadline, func() (bool, string) { return e.call(input) })
+		setInFlight(nil)
 		res.Calls = 1
 		res.Sample = &replaySpec{EP: r.EP, Desc: r.Desc + " -> " + o.Kind + " " + o.Detail + " " + o.Value}
 		if o.Kind == "panic" || o.Kind == "hang" {
@@ -529,6 +633,7 @@ func TestDriver(t *testing.T) {
 			}
 		}
 		_ = enc.Encode(res)
+		_ = bw.Flush()
 	}
 
 	// deterministic order
@@ -541,5 +646,6 @@ func TestDriver(t *testing.T) {
 		if err := enc.Encode(res); err != nil {
 			t.Fatal(err)
 		}
+		_ = bw.Flush() // a later case may kill the process: what is done stays on disk
 	}
 }
